@@ -420,7 +420,7 @@ def latchDone (g : Nat) (u : St) : St :=
            gens := fun k => if k = g then { (u.gens g) with upTorn := true, ssFins := [g] } else u.gens k }
 
 theorem finish_live (fl : Flags) {g i : Nat} {u : St} (h : FLive g i u) :
-    Inv (r3tail fl i g (upAddTeardown g u)) ∧ GenActive (r3tail fl i g (upAddTeardown g u)) g ∧
+    r3tail fl i g (upAddTeardown g u) = liveDone i g u ∧ Inv (r3tail fl i g (upAddTeardown g u)) ∧ GenActive (r3tail fl i g (upAddTeardown g u)) g ∧
       (r3tail fl i g (upAddTeardown g u)).subject = some g := by
   have hss : u.sourceSubscription = some g := by rw [h.shared]; exact h.subject
   have h1 := h.ssDone
@@ -430,6 +430,7 @@ theorem finish_live (fl : Flags) {g i : Nat} {u : St} (h : FLive g i u) :
   have e : r3tail fl i g (upAddTeardown g u) = liveDone i g u := by
     simp [r3tail, upAddTeardown, h.pDone, hss, h.ssDone, addTeardown, h.done, h.ssFins, liveDone]
     refine ⟨?_, ?_⟩ <;> funext k <;> split <;> simp_all
+  refine ⟨e, ?_⟩
   rw [e]
   generalize hF : liveDone i g u = F
   simp only [liveDone] at hF
@@ -479,7 +480,7 @@ theorem finish_live (fl : Flags) {g i : Nat} {u : St} (h : FLive g i u) :
     exact ⟨by omega, Or.inl hact⟩
 
 theorem finish_reset (fl : Flags) {g i : Nat} {u : St} (h : FReset g i u) :
-    Inv (r3tail fl i g (upAddTeardown g u)) ∧ (r3tail fl i g (upAddTeardown g u)).subject = none := by
+    r3tail fl i g (upAddTeardown g u) = resetDone g u ∧ Inv (r3tail fl i g (upAddTeardown g u)) ∧ (r3tail fl i g (upAddTeardown g u)).subject = none := by
   have hss : u.sourceSubscription = none := by rw [h.shared]; exact h.subject
   have hD : ∀ v : St, SubClosed (v.subs i) → dUnsubscribe fl i (dTerm fl i (.error .nilDeref) v) = v.drop (.error .nilDeref) := by
     intro v hv
@@ -493,6 +494,7 @@ theorem finish_reset (fl : Flags) {g i : Nat} {u : St} (h : FReset g i u) :
     split
     next => rw [hD]; rfl; exact h.sub
     next g' hg' => rw [this] at hg'; cases hg'
+  refine ⟨e, ?_⟩
   rw [e]
   generalize hF : resetDone g u = F
   simp only [resetDone] at hF
@@ -526,7 +528,7 @@ theorem finish_reset (fl : Flags) {g i : Nat} {u : St} (h : FReset g i u) :
   · intro g' hg'; rw [hsubj] at hg'; cases hg'
 
 theorem finish_latch (fl : Flags) {g i : Nat} {u : St} (h : FLatch g i u) :
-    Inv (r3tail fl i g (upAddTeardown g u)) ∧ GenLatched (r3tail fl i g (upAddTeardown g u)) g ∧
+    r3tail fl i g (upAddTeardown g u) = latchDone g u ∧ Inv (r3tail fl i g (upAddTeardown g u)) ∧ GenLatched (r3tail fl i g (upAddTeardown g u)) g ∧
       (r3tail fl i g (upAddTeardown g u)).subject = some g := by
   have hss : u.sourceSubscription = some g := by rw [h.shared]; exact h.subject
   have hc := h.sub.status
@@ -539,6 +541,7 @@ theorem finish_latch (fl : Flags) {g i : Nat} {u : St} (h : FLatch g i u) :
     simp
     funext k
     split <;> simp_all
+  refine ⟨e, ?_⟩
   rw [e]
   generalize hF : latchDone g u = F
   simp only [latchDone] at hF
@@ -644,9 +647,9 @@ theorem subscribe_cases (cfg : Cfg) {s : St} (hi : Inv s) :
     rw [he]
     have hl := (flive_freshState cfg.conn hi hsub).sim hsim
     rcases playPre_live cfg (cfg.pre k) hl with h | h | h
-    · exact (finish_live cfg.flags h).1
-    · exact (finish_reset cfg.flags h).1
-    · exact (finish_latch cfg.flags h).1
+    · exact (finish_live cfg.flags h).2.1
+    · exact (finish_reset cfg.flags h).2.1
+    · exact (finish_latch cfg.flags h).2.1
   | some g =>
     rcases (hi.cur g hsub).2 with ha | hl
     · exact (inv_joinState hi hsub ha).1.sim (subscribe_join_active cfg hi hsub ha)
